@@ -158,7 +158,7 @@ fn run(ctx: &mut Ctx) {
             let mut want = prefix.clone();
             want.extend_from_slice(&alone);
             let presized = Wk::Presized(*ctx.rng.pick(&[4usize, 64, 1500, 66_000]));
-            for wk in [Wk::Vec, Wk::Recording, presized, Wk::Reused] {
+            for wk in [Wk::Vec, Wk::Recording, presized, Wk::Reused, Wk::WhileUnwinding] {
                 match exec::encode_items(&prefix, &[item(&v)], wk) {
                     exec::EncOut::Ok(e) => {
                         if e.bytes != want {
